@@ -11,7 +11,7 @@ R-TIMESRC      SDATE/STIME/TSTEP are formatted from the *source's* decoded times
 """
 import ast
 
-from ..engine import AnalysisError, dotted, iter_stmts, norm, walk_expr, const_str
+from ..engine import parent_chain, AnalysisError, dotted, iter_stmts, norm, walk_expr, const_str
 from ..report import Finding
 from ..sizealg import to_poly, Poly
 from .. import api
